@@ -33,6 +33,8 @@ pub fn c10(t: &dyn TypeOps, cx: &mut Cx) {
         cx.case(case_hash(cx, &want), true);
         let th = u64::from_ne_bytes(bytes[13..21].try_into().unwrap());
         let ah = u64::from_ne_bytes(bytes[21..29].try_into().unwrap());
+        // the errors name both types: the name stored in the stream and the name of the reading type
+        let name = t.type_name();
         let mut judge = |cx: &mut Cx, what: &str, pert: &[u8], exp: &str, arena: &mut Arena| {
             cx.evals += 2;
             cx.transitions += 2;
@@ -63,10 +65,10 @@ pub fn c10(t: &dyn TypeOps, cx: &mut Cx) {
                     (format!("usize:flip{}.{}", byte, bit), format!("UsizeSizeMismatch({})", p[12]))
                 } else if byte < 21 {
                     let h = u64::from_ne_bytes(p[13..21].try_into().unwrap());
-                    (format!("typehash:flip{}.{}", byte, bit), format!("WrongTypeHash(ser={:#x},self={:#x})", h, th))
+                    (format!("typehash:flip{}.{}", byte, bit), format!("WrongTypeHash(ser={:#x},self={:#x},ser_name={},self_name={})", h, th, name, name))
                 } else {
                     let h = u64::from_ne_bytes(p[21..29].try_into().unwrap());
-                    (format!("alignhash:flip{}.{}", byte, bit), format!("WrongAlignHash(ser={:#x},self={:#x})", h, ah))
+                    (format!("alignhash:flip{}.{}", byte, bit), format!("WrongAlignHash(ser={:#x},self={:#x},ser_name={},self_name={})", h, ah, name, name))
                 };
                 judge(cx, &what, &p, &exp, &mut arena);
             }
@@ -99,8 +101,8 @@ pub fn c10(t: &dyn TypeOps, cx: &mut Cx) {
                     let exp = if byte < 8 { format!("MagicCookieError({:#x})", u64::from_ne_bytes(p[0..8].try_into().unwrap())) }
                         else if byte < 10 { format!("MajorVersionMismatch({})", u16::from_ne_bytes(p[8..10].try_into().unwrap())) }
                         else if byte < 13 { format!("UsizeSizeMismatch({})", p[12]) }
-                        else if byte < 21 { format!("WrongTypeHash(ser={:#x},self={:#x})", u64::from_ne_bytes(p[13..21].try_into().unwrap()), th) }
-                        else { format!("WrongAlignHash(ser={:#x},self={:#x})", u64::from_ne_bytes(p[21..29].try_into().unwrap()), ah) };
+                        else if byte < 21 { format!("WrongTypeHash(ser={:#x},self={:#x},ser_name={},self_name={})", u64::from_ne_bytes(p[13..21].try_into().unwrap()), th, name, name) }
+                        else { format!("WrongAlignHash(ser={:#x},self={:#x},ser_name={},self_name={})", u64::from_ne_bytes(p[21..29].try_into().unwrap()), ah, name, name) };
                     judge(cx, &format!("minor0+flip{}.{}", byte, bit), &p, &exp, &mut arena);
                 }
             }
@@ -111,8 +113,8 @@ pub fn c10(t: &dyn TypeOps, cx: &mut Cx) {
                 let exp = if byte < 8 { format!("MagicCookieError({:#x})", u64::from_ne_bytes(p[0..8].try_into().unwrap())) }
                     else if byte < 10 { format!("MajorVersionMismatch({})", u16::from_ne_bytes(p[8..10].try_into().unwrap())) }
                     else if byte < 13 { format!("UsizeSizeMismatch({})", p[12]) }
-                    else if byte < 21 { format!("WrongTypeHash(ser={:#x},self={:#x})", u64::from_ne_bytes(p[13..21].try_into().unwrap()), th) }
-                    else { format!("WrongAlignHash(ser={:#x},self={:#x})", u64::from_ne_bytes(p[21..29].try_into().unwrap()), ah) };
+                    else if byte < 21 { format!("WrongTypeHash(ser={:#x},self={:#x},ser_name={},self_name={})", u64::from_ne_bytes(p[13..21].try_into().unwrap()), th, name, name) }
+                    else { format!("WrongAlignHash(ser={:#x},self={:#x},ser_name={},self_name={})", u64::from_ne_bytes(p[21..29].try_into().unwrap()), ah, name, name) };
                 for r in [1usize, 4] {
                     cx.evals += 1;
                     let placed = arena.place(r, &p);
